@@ -36,3 +36,29 @@ def jobs_for(prop):
         else:
             out.append((mod, fn, dict(kw, props=[prop])))
     return out
+
+
+TB = ('Trusted: the pyvc symbolic executor and its encoding of Python (E-list, DESIGN.md section 3), z3; assumed contracts of libraries and of '
+      'user-supplied callables (A-list / roles / rely U1-U5) as listed in the evidence file. ')
+
+CLAIMS = {
+    'C01': dict(text='Record-step and replay-step contracts of the three decorator wrappers, of play and of the operation wrapper are discharged on the real '
+                     'functions for all paths, all argument values and all outcomes of every user / cassette call (symbolic, unbounded).',
+                note=TB + 'jsonpickle fidelity (A1) is an assumed contract; the run-level induction lemma composes the per-call contracts.'),
+    'C02': dict(text='Playback-mode contracts: intercepted bodies never run, no cassette or recording write, missing-key policy in documented order, '
+                     'discharged for every path of the real wrappers and of play.',
+                note=TB + 'One recorded known finding (recorded RecordingKeyError taken for a missing key).'),
+    'C03': dict(text='Output-entry contracts (key = alias + per-alias ordinal, value = arguments without the instance, one entry per call, operation entry) '
+                     'discharged on the real output wrapper, operation wrapper and play.',
+                note=TB),
+    'C04': dict(text='Transparency contract of each wrapper in recording mode and with recording disabled: body exactly once with the same arguments, same '
+                     'returned object / raised exception, for every outcome of every hook, handler, copy and cassette call and every discard / forced-sampling '
+                     'by user code (rely).', note=TB + 'Thread interference at call granularity only (rely); byte-code level preemption is outside the encoding.'),
+    'C05': dict(text='Ghost finalisation counter on the operation wrapper (exactly one save or abort on every exit kind) and captured-or-discarded postconditions '
+                     'on the interception wrappers.', note=TB),
+    'C09': dict(text='Idle postcondition on every exit kind of the operation wrapper and play; nested-interception flag restored by every wrapper.', note=TB),
+    'C17': dict(text='Decision-table contract of the sampling decision on the real operation wrapper: skipped, discard wins, forced, rate >= 1, one draw.',
+                note=TB + 'The long-run fraction is a corollary of the per-decision contract and a uniform stream (not machine-checked).'),
+    'C18': dict(text='Metadata postconditions per exit kind of the operation body on the real operation wrapper.', note=TB + 'time() monotone assumed.'),
+}
+NOT_APPLICABLE = {}
